@@ -9,6 +9,7 @@
 import Chrono.Proofs.GenDateL
 import Chrono.Props.GenDate
 import Chrono.Props.GenDelta
+import Chrono.Props.GenWeekday
 import Chrono.Proofs.GenTimeL
 import Chrono.Model.DateArith
 import Chrono.Model.DateOps
@@ -369,5 +370,99 @@ theorem gen_with_ordinal0_eq (d : Date) (ordinal0 : Nat) (hd : -2147483648 ≤ d
 theorem gen_week_eq (d : Date) (start : Weekday) :
     Gen.naive_date.NaiveDate.week d.yof (start.toNat : Nat)
       = ⟨(d.week start).date.yof, ((d.week start).start.toNat : Nat)⟩ := rfl
+
+theorem nfm_range (w : Weekday) : 1 ≤ w.number_from_monday ∧ w.number_from_monday ≤ 7 := by
+  cases w <;> decide
+
+theorem gen_from_weekday_of_month_opt_eq (year : Int) (month : Nat) (weekday : Weekday) (n : Nat)
+    (hm : month ≤ 4294967295) (hn : n ≤ 255) :
+    Gen.naive_date.NaiveDate.from_weekday_of_month_opt year month (weekday.toNat : Nat) n
+      = rmap (Option.map Date.yof) (Date.from_weekday_of_month_opt year month weekday n) := by
+  unfold Gen.naive_date.NaiveDate.from_weekday_of_month_opt Date.from_weekday_of_month_opt
+  by_cases h0 : n = 0
+  · rw [if_pos (by omega), if_pos h0]; rfl
+  · rw [if_neg (by omega), if_neg h0]
+    have g1 : Gen.naive_date.NaiveDate.from_ymd_opt year month 1
+        = rmap (Option.map Date.yof) (Date.from_ymd_opt year month 1) :=
+      GenDate.gen_from_ymd_opt_eq year month 1 hm (by omega)
+    rw [g1]
+    cases Date.from_ymd_opt year month 1 with
+    | panic => rfl
+    | ok o =>
+      cases o with
+      | none => rfl
+      | some f =>
+        simp only [rmap, bind_ok, Option.map]
+        rw [GenDate.gen_weekday_eq f, bind_ok, GenWeekday.gen_weekday_number_from_monday_eq, bind_ok]
+        have ra := nfm_range weekday
+        have rb := nfm_range f.weekday
+        rw [ckU32_ok (by omega), bind_ok, GenWeekday.gen_weekday_number_from_monday_eq, bind_ok,
+          ckU32_ok (by omega), bind_ok]
+        have e8 : GenRt.ckU8 ((n : Int) - 1) = .ok ((n : Int) - 1) := by
+          unfold GenRt.ckU8
+          rw [if_pos (by simp only [Bool.and_eq_true, decide_eq_true_eq]; omega)]
+        rw [e8, bind_ok, ckU32_ok (by omega), bind_ok, ckU32_ok (by omega), bind_ok, ckU32_ok (by omega), bind_ok]
+        have ed : ((n : Int) - 1) * 7 + (7 + (weekday.number_from_monday : Int) - (f.weekday.number_from_monday : Int)) % 7 + 1
+            = (((n - 1) * 7 + (7 + weekday.number_from_monday - f.weekday.number_from_monday) % 7 + 1 : Nat) : Int) := by
+          omega
+        rw [ed]
+        exact GenDate.gen_from_ymd_opt_eq year month _ hm (by omega)
+
+/-- the generated `NaiveWeek` of a model value -/
+abbrev wG (w : NaiveWeek) : Gen.naive.NaiveWeek := ⟨w.date.yof, (w.start.toNat : Nat)⟩
+
+theorem ndfm_le (w : Weekday) : w.num_days_from_monday ≤ 6 := by cases w <;> decide
+
+theorem gen_checked_first_day_eq (w : NaiveWeek) (hd : -2147483648 ≤ w.date.yof ∧ w.date.yof ≤ 2147483647)
+    (ho : 1 ≤ w.date.ordinal) :
+    Gen.naive.NaiveWeek.checked_first_day (wG w) = rmap (Option.map Date.yof) w.checked_first_day := by
+  unfold Gen.naive.NaiveWeek.checked_first_day NaiveWeek.checked_first_day
+  dsimp only
+  rw [GenWeekday.gen_weekday_num_days_from_monday_eq, bind_ok, GenDate.gen_weekday_eq, bind_ok,
+    GenWeekday.gen_weekday_num_days_from_monday_eq, bind_ok]
+  have h1 : 0 ≤ (w.start.num_days_from_monday : Int) ∧ (w.start.num_days_from_monday : Int) ≤ 6 := by
+    have := ndfm_le w.start; omega
+  have h2 : 0 ≤ (w.date.weekday.num_days_from_monday : Int) ∧ (w.date.weekday.num_days_from_monday : Int) ≤ 6 := by
+    have := ndfm_le w.date.weekday; omega
+  rw [Proofs.asI32_id (by omega) (by omega), Proofs.asI32_id (by omega) (by omega)]
+  generalize (w.start.num_days_from_monday : Int) = s at *
+  generalize (w.date.weekday.num_days_from_monday : Int) = r at *
+  rw [ckI32_ok (by omega), bind_ok, ckI32_ok (by split <;> omega), bind_ok]
+  exact GenDate.gen_add_days_eq w.date _ hd (by split <;> omega) ho
+
+theorem gen_checked_last_day_eq (w : NaiveWeek) (hd : -2147483648 ≤ w.date.yof ∧ w.date.yof ≤ 2147483647)
+    (ho : 1 ≤ w.date.ordinal) :
+    Gen.naive.NaiveWeek.checked_last_day (wG w) = rmap (Option.map Date.yof) w.checked_last_day := by
+  unfold Gen.naive.NaiveWeek.checked_last_day NaiveWeek.checked_last_day
+  dsimp only
+  rw [GenWeekday.gen_weekday_pred_eq, GenWeekday.gen_weekday_num_days_from_monday_eq, bind_ok,
+    GenDate.gen_weekday_eq, bind_ok, GenWeekday.gen_weekday_num_days_from_monday_eq, bind_ok]
+  have h1 : 0 ≤ (w.start.pred.num_days_from_monday : Int) ∧ (w.start.pred.num_days_from_monday : Int) ≤ 6 := by
+    have := ndfm_le w.start.pred; omega
+  have h2 : 0 ≤ (w.date.weekday.num_days_from_monday : Int) ∧ (w.date.weekday.num_days_from_monday : Int) ≤ 6 := by
+    have := ndfm_le w.date.weekday; omega
+  rw [Proofs.asI32_id (by omega) (by omega), Proofs.asI32_id (by omega) (by omega)]
+  generalize (w.start.pred.num_days_from_monday : Int) = s at *
+  generalize (w.date.weekday.num_days_from_monday : Int) = r at *
+  rw [ckI32_ok (by omega), bind_ok, ckI32_ok (by split <;> omega), bind_ok]
+  exact GenDate.gen_add_days_eq w.date _ hd (by split <;> omega) ho
+
+theorem gen_first_day_eq (w : NaiveWeek) (hd : -2147483648 ≤ w.date.yof ∧ w.date.yof ≤ 2147483647)
+    (ho : 1 ≤ w.date.ordinal) :
+    Gen.naive.NaiveWeek.first_day (wG w) = rmap Date.yof w.first_day := by
+  unfold Gen.naive.NaiveWeek.first_day NaiveWeek.first_day
+  rw [gen_checked_first_day_eq w hd ho]
+  cases w.checked_first_day with
+  | panic => rfl
+  | ok o => cases o <;> rfl
+
+theorem gen_last_day_eq (w : NaiveWeek) (hd : -2147483648 ≤ w.date.yof ∧ w.date.yof ≤ 2147483647)
+    (ho : 1 ≤ w.date.ordinal) :
+    Gen.naive.NaiveWeek.last_day (wG w) = rmap Date.yof w.last_day := by
+  unfold Gen.naive.NaiveWeek.last_day NaiveWeek.last_day
+  rw [gen_checked_last_day_eq w hd ho]
+  cases w.checked_last_day with
+  | panic => rfl
+  | ok o => cases o <;> rfl
 
 end Chrono.Props.GenDateOps
